@@ -473,7 +473,7 @@ func (e *Engine) havocLocation(env *Env, st *State, loc Expr) {
 			if v.K != KSlice {
 				cerr("assigns elems(): not a slice")
 			}
-			e.havocArray(st, sliceElem(v.Typ), v.Fs[0].T)
+			e.havocWindow(st, sliceElem(v.Typ), v.Fs[0].T, v.Fs[1].T, v.Fs[2].T)
 			return
 		case "mapof":
 			v := pre.eval(x.Args[0])
@@ -504,6 +504,20 @@ func (e *Engine) havocArray(st *State, elem types.Type, ref string) {
 		sortM := "(Array Int (Array Int " + c.Sort + "))"
 		m := e.heapTerm(st, name, sortM)
 		e.heapSet(st, name, sortM, ref, sx("store", m, ref, e.ctx.Declare("hv$arr", "(Array Int "+c.Sort+")")))
+	}
+}
+
+// havocWindow forgets the elements [off, off+n) of array ref and keeps the others.
+func (e *Engine) havocWindow(st *State, elem types.Type, ref, off, n string) {
+	for _, c := range flat(elem) {
+		name := memName(elem, c.Suffix)
+		srtA := "(Array Int " + c.Sort + ")"
+		sortM := "(Array Int " + srtA + ")"
+		m := e.heapTerm(st, name, sortM)
+		old := e.ctx.Define("old", srtA, sx("select", m, ref))
+		a := e.ctx.Declare("hv$win", srtA)
+		e.ctx.Assume(fmt.Sprintf("(forall ((i Int)) (! (=> (not (and (<= %s i) (< i (+ %s %s)))) (= (select %s i) (select %s i))) :pattern ((select %s i))))", off, off, n, a, old, a))
+		e.heapSet(st, name, sortM, ref, sx("store", m, ref, a))
 	}
 }
 
